@@ -3,12 +3,13 @@ import json
 import os
 
 import common
-from . import gradual, scoregen, decoder
+from . import gradual, scoregen, decoder, convert
 
 REGISTRY = {}
 REGISTRY.update(gradual.REGISTRY)
 REGISTRY.update(scoregen.REGISTRY)
 REGISTRY.update(decoder.REGISTRY)
+REGISTRY.update(convert.REGISTRY)
 
 
 def setup():
@@ -32,7 +33,7 @@ def replay(path):
     obj = json.load(open(path))
     prop = obj["property"]
     kind = obj["replay"].get("kind")
-    for mod in (gradual, scoregen, decoder):
+    for mod in (gradual, scoregen, decoder, convert):
         if kind in mod.REPLAY_KINDS:
             return mod.replay(prop, obj)
     common.log("no replay handler for kind %r" % kind)
